@@ -190,7 +190,7 @@ class Runner:
                 # the change lies in the subtree of node q, and q's cache survived the op
                 if is_prefix(q, p) and bn.get(q) is not None and bn[q]["id"] == an[q]["id"] and an[q]["locked"] \
                         and not (bn[q]["cache_id"] is not None and an[q]["cache_id"] != bn[q]["cache_id"]):
-                    self.events.setdefault(q, []).append({"effect": eff, "at": p, "op": opkind})
+                    self.events.setdefault(q, []).append({"effect": eff, "at": p, "op": opkind, "target": getattr(self, "last_target", None)})
         return evs
 
     def explain(self, nodepath, methods):
@@ -232,10 +232,10 @@ class Runner:
                         break
         if e is not None:
             cause = CAUSE.get(e["op"], e["op"])
-            if cause == "metadata-under-lock" and "names" in methods and e["at"] != nodepath:
-                cause = "lazy-member-names"
-            elif cause == "metadata-under-lock" and e["at"] == nodepath and "_key_list" in methods:
+            if cause == "metadata-under-lock" and "_key_list" in methods and e.get("target") == nodepath:
                 cause = "lazy-own-names-setter"     # the lazy stack's own setter carries @erase_cache: not a recorded defect
+            elif cause == "metadata-under-lock" and "names" in methods and e["at"] != nodepath:
+                cause = "lazy-member-names"
             sig = {"cause": cause, "effect": e["effect"], "explained": True}
         else:
             sig = {"cause": "none", "explained": False, "methods": ",".join(methods), "label": label}
@@ -293,6 +293,7 @@ class Runner:
         p, n = nodes[op.get("node", 0) % len(nodes)]
         v = op.get("v", 1)
         self.counter += 1
+        self.last_target = "/".join(p)
         if k in ("set_", "set_inplace", "tensor_", "set_at_", "fill_", "update_"):
             key = pick(tensor_keys(n), op.get("leaf", 0))
             if key is None:
